@@ -75,13 +75,16 @@ type inliner struct {
 	notes   *[]string
 	decls   map[*types.Func]*declInfo
 	imports []string // import specs to add to this file
+	lits    map[*types.Var]*ast.FuncLit
+	litObjs map[*ast.FuncLit]*types.Func
 }
 
 type declInfo struct {
-	decl *ast.FuncDecl
-	pk   *packages.Package
-	file *ast.File
-	src  []byte
+	decl    *ast.FuncDecl
+	pk      *packages.Package
+	file    *ast.File
+	src     []byte
+	keepVar string // function literal bound to this variable: keep the variable "used" after its call was inlined
 }
 
 // LoadNormalized loads cfg and, while new helper functions are called from library code, inlines them and reloads.
@@ -92,7 +95,7 @@ func LoadNormalized(cfg Config) (*Program, error) {
 	}
 	var notes []string
 	for round := 0; round < 4; round++ {
-		ov, n, err := p.inlineNewHelpers(&notes)
+		ov, n, err := p.inlineNewHelpers(&notes, round*1000)
 		if err != nil || n == 0 {
 			break
 		}
@@ -103,6 +106,12 @@ func LoadNormalized(cfg Config) (*Program, error) {
 		}
 		for k, v := range ov {
 			cfg2.Overlay[k] = v
+		}
+		if d := os.Getenv("HCSA_NORM_DEBUG"); d != "" {
+			os.MkdirAll(d, 0755)
+			for k, v := range ov {
+				os.WriteFile(fmt.Sprintf("%s/r%d_%s", d, round, strings.ReplaceAll(strings.TrimPrefix(k, cfg.Dir+"/"), "/", "__")), v, 0644)
+			}
 		}
 		q, err := Load(cfg2)
 		if err != nil {
@@ -144,7 +153,7 @@ func firstLine(s string) string {
 }
 
 // inlineNewHelpers performs one round: every supported call of a new helper in library code is replaced.
-func (p *Program) inlineNewHelpers(notes *[]string) (map[string][]byte, int, error) {
+func (p *Program) inlineNewHelpers(notes *[]string, base int) (map[string][]byte, int, error) {
 	decls := map[*types.Func]*declInfo{}
 	for _, pk := range p.Pkgs {
 		if !IsLibraryPkg(pk.PkgPath) {
@@ -173,7 +182,7 @@ func (p *Program) inlineNewHelpers(notes *[]string) (map[string][]byte, int, err
 	}
 	out := map[string][]byte{}
 	total := 0
-	counter := 0
+	counter := base
 	for _, pk := range p.Pkgs {
 		if !IsLibraryPkg(pk.PkgPath) {
 			continue
@@ -287,6 +296,7 @@ func (in *inliner) callee(call *ast.CallExpr) (*types.Func, ast.Expr) {
 }
 
 func (in *inliner) run() {
+	in.findClosures()
 	var stack []ast.Node
 	ast.Inspect(in.file, func(n ast.Node) bool {
 		if n == nil {
@@ -299,6 +309,9 @@ func (in *inliner) run() {
 			return true
 		}
 		obj, recv := in.callee(call)
+		if obj == nil {
+			obj = in.closureCallee(call)
+		}
 		if obj == nil || in.decls[obj].pk != in.pk {
 			return true
 		}
@@ -569,6 +582,14 @@ func (in *inliner) expand(call *ast.CallExpr, obj *types.Func, recv ast.Expr, lh
 						okNames, why = false, "name "+idn.Name+" is shadowed at the call site"
 					}
 				}
+			} else if v, isVar := o.(*types.Var); isVar && !v.IsField() && o.Pkg() == di.pk.Types && o.Parent() != nil && o.Parent() != di.pk.Types.Scope() &&
+				!(di.decl.Type.Pos() <= o.Pos() && o.Pos() <= di.decl.Body.End()) {
+				// a variable of the enclosing function captured by a function literal: must be the same variable at the call site
+				if scope != nil {
+					if _, found := scope.LookupParent(idn.Name, call.Pos()); found != o {
+						okNames, why = false, "captured variable "+idn.Name+" is not visible (or shadowed) at the call site"
+					}
+				}
 			}
 		}
 		return true
@@ -720,6 +741,13 @@ func (in *inliner) expand(call *ast.CallExpr, obj *types.Func, recv ast.Expr, lh
 					o = info.Defs[x]
 				}
 				if o != nil {
+					if _, ok := ren[o]; !ok {
+						// locals of the callee get unique names: nothing the caller (or a callback spliced in by a later round)
+						// refers to can be captured by them
+						if v, isVar := o.(*types.Var); isVar && !v.IsField() && x.Name != "_" && di.decl.Body.Lbrace < o.Pos() && o.Pos() < di.decl.Body.Rbrace {
+							ren[o] = fmt.Sprintf("%s_h%d", x.Name, id)
+						}
+					}
 					if nn, ok := ren[o]; ok {
 						eds = append(eds, ed{coff(x.Pos()), coff(x.End()), nn})
 					}
@@ -777,6 +805,9 @@ func (in *inliner) expand(call *ast.CallExpr, obj *types.Func, recv ast.Expr, lh
 		out.WriteString("return " + strings.Join(resNames, ", ") + "; ")
 	}
 	out.WriteString("}")
+	if di.keepVar != "" {
+		out.WriteString("; _ = " + di.keepVar)
+	}
 	for name, path := range needImports {
 		spec := name + " \"" + path + "\""
 		dup := false
@@ -888,7 +919,23 @@ func (in *inliner) hoist(call *ast.CallExpr, obj *types.Func, recv ast.Expr, sta
 		if len(s.Rhs) >= 1 && s.Tok != token.DEFINE || s.Tok == token.DEFINE {
 			// left-hand sides with index/selector operands are evaluated before the right-hand side: only plain identifiers allowed
 			for _, l := range s.Lhs {
-				if _, ok := l.(*ast.Ident); !ok {
+				// x and x.f.g (x a local variable or parameter) denote the same location before and after the call: a declared
+				// function cannot assign the caller's local x. Index expressions and calls on the left are evaluated first: not hoisted.
+				e := l
+				for {
+					if se, ok := e.(*ast.SelectorExpr); ok && in.decls[obj].keepVar == "" {
+						e = se.X
+						continue
+					}
+					break
+				}
+				id, ok := e.(*ast.Ident)
+				if ok && e != l {
+					if v, isVar := in.pk.TypesInfo.Uses[id].(*types.Var); !isVar || v.Parent() == in.pk.Types.Scope() {
+						ok = false
+					}
+				}
+				if !ok {
 					in.skip(obj, "assignment target is evaluated before the call")
 					return
 				}
@@ -1090,4 +1137,118 @@ func (p *Program) origPosition(filename string, offset int) (line, col int, ok b
 		}
 	}
 	return line, col, true
+}
+
+// ---------------------------------------------------------------- calls of local function literals
+
+// findClosures: local variables that are bound exactly once, at their declaration, to a function literal and are never assigned
+// again nor have their address taken ( done := func(...) {...} ;  var p func(...) = func(...) {...}  — the latter is what an inlined
+// helper leaves behind for a callback argument). A call of such a variable is a static call of the literal.
+func (in *inliner) findClosures() {
+	in.lits = map[*types.Var]*ast.FuncLit{}
+	info := in.pk.TypesInfo
+	bad := map[*types.Var]bool{}
+	bind := func(id *ast.Ident, val ast.Expr) {
+		v, _ := info.Defs[id].(*types.Var)
+		if v == nil {
+			return
+		}
+		if lit, ok := ast.Unparen(val).(*ast.FuncLit); ok {
+			in.lits[v] = lit
+		} else {
+			bad[v] = true
+		}
+	}
+	ast.Inspect(in.file, func(n ast.Node) bool {
+		switch x := n.(type) {
+		case *ast.ValueSpec:
+			if len(x.Names) == len(x.Values) {
+				for k, id := range x.Names {
+					bind(id, x.Values[k])
+				}
+			} else {
+				for _, id := range x.Names {
+					if v, _ := info.Defs[id].(*types.Var); v != nil {
+						bad[v] = true
+					}
+				}
+			}
+		case *ast.AssignStmt:
+			for k, l := range x.Lhs {
+				id, ok := l.(*ast.Ident)
+				if !ok {
+					continue
+				}
+				if x.Tok == token.DEFINE && info.Defs[id] != nil && len(x.Lhs) == len(x.Rhs) {
+					bind(id, x.Rhs[k])
+					continue
+				}
+				if v, _ := info.Uses[id].(*types.Var); v != nil {
+					bad[v] = true
+				}
+				if v, _ := info.Defs[id].(*types.Var); v != nil {
+					bad[v] = true
+				}
+			}
+		case *ast.UnaryExpr:
+			if x.Op == token.AND {
+				if id, ok := ast.Unparen(x.X).(*ast.Ident); ok {
+					if v, _ := info.Uses[id].(*types.Var); v != nil {
+						bad[v] = true
+					}
+				}
+			}
+		case *ast.RangeStmt:
+			for _, e := range []ast.Expr{x.Key, x.Value} {
+				if id, ok := e.(*ast.Ident); ok {
+					if v, _ := info.Uses[id].(*types.Var); v != nil {
+						bad[v] = true
+					}
+				}
+			}
+		}
+		return true
+	})
+	for v := range bad {
+		delete(in.lits, v)
+	}
+	for v := range in.lits {
+		if v.Parent() == nil || v.Parent() == in.pk.Types.Scope() {
+			delete(in.lits, v) // package-level variables can be assigned from anywhere
+		}
+	}
+}
+
+// closureCallee: call is  v(args)  for such a variable; the literal is registered as a callee under a synthetic function object.
+func (in *inliner) closureCallee(call *ast.CallExpr) *types.Func {
+	id, ok := ast.Unparen(call.Fun).(*ast.Ident)
+	if !ok {
+		return nil
+	}
+	v, _ := in.pk.TypesInfo.Uses[id].(*types.Var)
+	if v == nil {
+		return nil
+	}
+	lit := in.lits[v]
+	if lit == nil {
+		return nil
+	}
+	// the call must not be inside the literal itself
+	if lit.Pos() <= call.Pos() && call.End() <= lit.End() {
+		return nil
+	}
+	if f := in.litObjs[lit]; f != nil {
+		return f
+	}
+	sig, _ := in.pk.TypesInfo.TypeOf(lit).(*types.Signature)
+	if sig == nil {
+		return nil
+	}
+	f := types.NewFunc(lit.Pos(), in.pk.Types, "func literal "+id.Name, sig)
+	if in.litObjs == nil {
+		in.litObjs = map[*ast.FuncLit]*types.Func{}
+	}
+	in.litObjs[lit] = f
+	in.decls[f] = &declInfo{decl: &ast.FuncDecl{Name: ast.NewIdent(id.Name), Type: lit.Type, Body: lit.Body}, pk: in.pk, file: in.file, src: in.src, keepVar: id.Name}
+	return f
 }
